@@ -41,7 +41,7 @@ def run_isolated(names, jobs):
     lock = threading.Lock()
 
     def worker(k):
-        base = "/tmp/seedrun-%d" % k
+        base = "/tmp/seedrun-%d" % (k + int(os.environ.get("SEEDRUN_OFFSET", "0")))
         shutil.rmtree(base, ignore_errors=True)
         os.makedirs(base)
         wt = os.path.join(base, "repo")
@@ -161,6 +161,10 @@ def write_md(results):
 
 
 def main():
+    if len(sys.argv) > 1 and sys.argv[1] == "--md":
+        # only regenerate RESULTS.md from the stored results
+        write_md(json.load(open(os.environ.get("SEEDED_RESULTS", os.path.join(VERIF, SDIR, "results.json")))))
+        return
     if len(sys.argv) > 2 and sys.argv[1] == "--jobs":
         jobs = int(sys.argv[2])
         names = sys.argv[3:] or sorted(n for n in os.listdir(os.path.join(VERIF, SDIR)) if os.path.isfile(os.path.join(VERIF, SDIR, n, "patch.diff")))
